@@ -22,6 +22,8 @@ int sched_nthreads(void);
 int sched_finished(int id);
 /* explicit scheduling point for harness code (e.g. before a harness-visible step) */
 void sched_yield_point(const char *what);
+/* block the calling thread until *flag becomes non-zero (harness-level hand-shake) */
+void sched_wait_flag(volatile int *flag);
 /* bracket a harness step that is to be treated as one atomic scheduler step */
 void sched_atomic_begin(void);
 void sched_atomic_end(void);
@@ -30,7 +32,9 @@ void sched_exit_thread(void) __attribute__((noreturn));
 
 /* called when every thread is blocked in an unbounded kernel wait (quiescence):
  * must end the execution (mc_done / mc_fail) */
-extern void (*sched_on_quiescence)(void);
+extern int (*sched_on_quiescence)(void);         /* return 1 if the harness made progress possible again */
+/* called in the receiving thread right before a queued signal is raised on it */
+extern int (*sched_on_signal)(int tid, int sig);   /* return 0 to drop the signal */
 /* optional: called at every kernel-wait entry of a thread (oracles) */
 extern void (*sched_on_wait_entry)(int tid, struct env_wait *w);
 /* optional: called when a kernel wait is about to return n to the library */
